@@ -127,7 +127,8 @@ def runChunks (f : List String) : String :=
     | _, _, _ => "bad-op"
   | _ => "bad-op"
 
-/-- snd.<kind> nodes scripts quota seed series points nparts   (same line as the Go driver)
+/-- snd.<kind> nodes scripts quota seed series points shape   (same line as the Go driver; shape = mem parts per
+    time segment in one flush window: every segment group ends up as one part of the batch)
       scripts = per node the outcome of its k-th call (S ok, E error, F every part reported failed; the last
                 letter repeats), nodes joined by ','
       quota   = 1: the copy into failed-parts/ fails
@@ -140,7 +141,7 @@ def runSnd (f : List String) : String :=
   match f with
   | [nodesS, scriptsS, quotaS, _, _, _, npartsS] =>
     let nn := nodesS.toNat?.getD 0
-    let nparts := npartsS.toNat?.getD 1
+    let nparts := (npartsS.splitOn "+").length
     let batch := (List.range nparts).map (· + 1)
     let nodes := (List.range nn).map fun i => s!"n{i}"
     let scripts := scriptsS.splitOn ","
